@@ -203,6 +203,24 @@ theorem C16_activity_current (o : Opts) (m : Mach) (init : List Path) (h : List 
   ⟨fun p hp => hs p ((C16_activity o m init h).1 p hp),
    fun s hm hc => (C16_activity o m init h).2.2.1 s hm (curOf_marked init h _ hc)⟩
 
+/-- OPEN FINDING (F-C16-regenerated-during-state-change). A callback that adds a transition while the
+state change `0 → 1` is in progress regenerates the graph for the state of that moment (`regen [[0]]`
+between `begin` and `finish`): the history is not `Settled` and the diagram shows the source `[0]`
+active next to the destination, nothing previous. `C16_activity_current` is the statement with the
+explicit exclusion (`Settled`); the engine-level repair is proposed_fixes/C16_6.diff. -/
+theorem C16_activity_regen_during_change_counterexample :
+    let o : Opts := { nested := false, showConds := false, showAttrs := false }
+    let leaf : Nat → MState := fun n => .mk n none false [] [] .none false [] []
+    let m : Mach := { states := [leaf 0, leaf 1], trans := [], initial := some [0] }
+    let h : List Step := [.begin [] [0] [1], .regen [[0]], .finish [[1]]]
+    let d := diagram o m (stylesAfter [[0]] h) none
+    curOf [[0]] h = [[1]] ∧ styledTop d 1 = [[0], [1]] ∧ styledTop d 2 = [] ∧ ¬ Settled [[0]] h := by
+  refine ⟨by decide, by decide, by decide, ?_⟩
+  intro hs
+  have := hs [0] (by decide)
+  revert this
+  decide
+
 /-- **Previous = source of the last executed transition**, at full strength: whatever scope the
 transition is listed in and however events nest, only the state whose *global* name is the source of
 the last `begin` can be styled previous (nothing is after a regeneration or before the first
@@ -346,6 +364,29 @@ example :
                              .options { nested := false, showConds := true, showAttrs := false }]
     labelsAt ((evs.foldl Session.apply s0).view none).edges ([0], [1]) =
       [{ text := [0, 0], internal := false, conds := [2], unl := [] }] := by
+  decide
+
+/-- **A model added to the machine starts with a fresh graph.** Whatever `model_graphs` holds —
+including an entry left under the same `id` by a model that was removed earlier (the same object
+re-attached, or a new object at a recycled address) — after `add_model` the graph of that id styles
+exactly the names of the model's state active and nothing previous; the graphs of all other ids are
+untouched; `remove_model` changes no graph. -/
+theorem C16_add_model_fresh (attr : Nat) (st : Store) (id : Nat) (m : Obj) :
+    (∀ p, ((storeStep attr st (.addModel id m)).get id).styleOf p = (if p ∈ readState attr m then 1 else 0)) ∧
+    (∀ id', id' ≠ id → (storeStep attr st (.addModel id m)).get id' = st.get id') ∧
+    (∀ id', storeStep attr st (.removeModel id') = st) := by
+  refine ⟨fun p => ?_, fun id' h => ?_, fun _ => rfl⟩
+  · simp [storeStep, store_get_set, styleOf_setNodes, styleOf_empty]
+  · have h' : ¬ id = id' := fun e => h e.symm
+    simp [storeStep, store_get_set, h']
+
+/-- a model (id 7) moved from 0 to 1, was removed, and an object with the same id is added in state 0:
+state 0 active, nothing previous -/
+example :
+    let evs : List MEvent := [.addModel 7 [(0, [[0]])], .graph 7 (.begin [] [0] [1]), .graph 7 (.finish [(0, [[1]])]),
+                              .removeModel 7, .addModel 7 [(0, [[0]])]]
+    let g := (evs.foldl (storeStep 0) []).get 7
+    g.styleOf [0] = 1 ∧ g.styleOf [1] = 0 := by
   decide
 
 /-- **Regeneration.** After add_states / add_transition / remove_transition (`regen cur`) — whatever
